@@ -23,13 +23,17 @@ PROPS["C14"] = dict(
                 "first matching definition, bitset as List Bool"),
     technique="Lean 4 proof (inductive invariant) + exhaustive model/implementation differential",
     lean_modules=["Bpmn.Props.C14", "Bpmn.Props.C14Current"],
-    families=["c14"],
+    families=["c14", "c14eng"],
     exhaustive=True,
     rule=("every history over n=1..4 definitions plus a non-matching event up to length 5..9 (exhaustive, "
           "catch parallel / catch plain / throw), plus seeded random histories of length 10..70 over 1..6 "
           "definitions (half of them balanced multisets); each Satisfy result (matched, chain index) is "
           "compared with the Lean model and the C14 predicate is evaluated on the implementation's answers; "
-          "non-trivial = the satisfier fired at least once; distinct = distinct (kind, par, n, history)"),
+          "non-trivial = the satisfier fired at least once; distinct = distinct (kind, par, n, history); c14eng: a "
+          "(parallel-)multiple intermediate catch event with 1..3 signal definitions inside a loop on the real engine, "
+          "seeded event histories delivered at quiescence with re-entries of the node, firings (requests of the task "
+          "behind it) compared with the satisfier model kept across activations and with the C14 predicate over the "
+          "events the node observed while listening"),
     trusted_base=TB_COMMON + [
         "modelled, not verified: event.MatchesEventInstance (an event is abstracted to the index of the first "
         "definition it matches), bits-and-blooms/bitset as List Bool"],
